@@ -96,6 +96,24 @@ func (c *Ctx) walletConfigFlow() {
 				pairs[q] = strings.Join(leaves(cl.Call.Args[0]), ",")
 			}
 		}
+		// an option is applied exactly when its pointer parameter is non-nil (no further condition on the value)
+		for _, q := range []string{"WithWorkchain", "WithNetworkGlobalID", "WithSubWalletID"} {
+			for _, cl := range callsTo(f, modPath+"/wallet."+q) {
+				var conds []string
+				for _, ft := range factsAt(f, cl.Block()) {
+					conds = append(conds, fmt.Sprintf("%s=%v", shape(ft.Cond, 3), ft.Truth))
+				}
+				sort.Strings(conds)
+				want := "[]"
+				switch q {
+				case "WithNetworkGlobalID":
+					want = "[(networkGlobalID!=nil)=true]"
+				case "WithSubWalletID":
+					want = "[(subWalletId!=nil)=true]"
+				}
+				c.check(fmt.Sprint(conds) == want, R, name+" applies "+q+" exactly when its parameter is given", cl.Pos(), fmt.Sprint(conds), fmt.Sprintf("%s applies %s under %v; every address API applies it under %s, otherwise the APIs disagree for some parameter values", name, q, conds, want))
+			}
+		}
 		wantP := map[string]string{"WithWorkchain": "workchain", "WithNetworkGlobalID": "networkGlobalID", "WithSubWalletID": "subWalletId"}
 		c.check(fmt.Sprint(pairs) == fmt.Sprint(wantP), R, name+" wraps each parameter in its own option", f.Pos(), fmt.Sprint(pairs), fmt.Sprintf("%s builds options %v, expected %v", name, pairs, wantP))
 	}
@@ -212,7 +230,7 @@ func (c *Ctx) walletConfigFlow() {
 		}
 		c.check(okM, R, "the data cell is the marshalled data argument", f.Pos(), "tlb.Marshal(dataCell, data)", "generateStateInit no longer marshals its data argument into the data cell")
 	}
-	c.floor(R, 35)
+	c.floor(R, 41)
 }
 
 func vals2leaves(vs []ssa.Value) string {
@@ -402,7 +420,66 @@ func (c *Ctx) nextMessageParams() {
 			c.check(len(seq) == 1 && seq[0] == "Seqno", R, recv+" returns data.Seqno", f.Pos(), "Seqno: data.Seqno", fmt.Sprintf("%s.NextMessageParams fills Seqno from %v", recv, seq))
 		}
 	}
-	c.floor(R, 23)
+	// Account.Status itself: the union tag decides before the content of an alternative is looked at
+	// (the sum-type decoder does not clear the alternatives it did not select, so a reused value can
+	// hold a stale Account under the tag AccountNone)
+	if f := c.mustFn(R, "tlb", "Account.Status"); f != nil {
+		var noneFalse []edge
+		for _, b := range f.Blocks {
+			iff := lastIf(b)
+			if iff == nil {
+				continue
+			}
+			bo, ok := iff.Cond.(*ssa.BinOp)
+			if !ok || bo.Op.String() != "==" {
+				continue
+			}
+			s, isS := constString(stripConv(bo.Y))
+			if !isS || s != "AccountNone" {
+				continue
+			}
+			if _, n, ok := fieldOfLoad(stripConv(bo.X)); ok && n == "SumType" {
+				noneFalse = append(noneFalse, edge{b, 1})
+			}
+		}
+		okv := len(noneFalse) == 1
+		nreads := 0
+		var firstBad ssa.Instruction
+		allInstrs(f, func(b *ssa.BasicBlock, in ssa.Instruction) {
+			var fa ssa.Value
+			switch x := in.(type) {
+			case *ssa.FieldAddr:
+				fa = x
+			case *ssa.Field:
+				fa = x
+			default:
+				return
+			}
+			tn, n, ok := fieldOf(fa)
+			if !ok || tn != "tlb.Account" || n != "Account" {
+				return
+			}
+			nreads++
+			dom := false
+			for _, e := range noneFalse {
+				if edgeDominates(f, e, b) {
+					dom = true
+				}
+			}
+			if !dom {
+				okv = false
+				if firstBad == nil {
+					firstBad = in
+				}
+			}
+		})
+		pos := f.Pos()
+		if firstBad != nil {
+			pos = firstBad.Pos()
+		}
+		c.check(okv && nreads > 0, R, "Account.Status consults the Account alternative only after the tag is known not to be AccountNone", pos, fmt.Sprintf("%d reads of a.Account, all behind SumType != AccountNone", nreads), "Account.Status reads the content of the Account alternative before (or without) testing the union tag: a value tagged AccountNone that still holds an earlier account state is reported with that stale status, and the wallets then omit the initial state")
+	}
+	c.floor(R, 24)
 }
 
 // sendPipeline: SendV2 / RawSendV2 argument flow and confirmation outcome.
